@@ -769,7 +769,8 @@ Definition access_clause_body (g : access_clause) : M status :=
                              | LAccess a => ctx_query (aq_query a)
                              | LFunction ps n => ev_fn r n ps
                              end ;;
-                      binary_operation (aq_query aq) rhs c custom
+                      (* prefix `not` on a binary clause flips the operator-level negation (fix 2nd /repo commit) *)
+                      binary_operation (aq_query aq) rhs (if negation then (fst c, negb (snd c)) else c) custom
                   end) ;;
         match res with
         | EmptyQueryResult st => ret (st, all)
